@@ -8,20 +8,22 @@
 (* durable state of the model with what is found on disk.                                                    *)
 EXTENDS Driver, Json, IOUtils
 
-TraceLog == ndJsonDeserialize(IOEnv.TRACE)
+\* read once (a definition would be re-evaluated, i.e. the file parsed again, at every reference)
+ASSUME TLCSet(7, ndJsonDeserialize(IOEnv.TRACE))
+TraceLog == TLCGet(7)
 
 VARIABLE l
 tvars == <<vars, l>>
 
 PlanOf(r) == [verdict |-> r.verdict, n |-> r.n, req |-> Range(r.req), opt |-> Range(r.opt)]
-TPlans == {PlanOf(TraceLog[i]) : i \in {j \in DOMAIN TraceLog : TraceLog[j].e = "Reset"}}
+NoPlans == {}      \* Plans is not used here: each execution's plan comes from its Reset line
 
 Ev == TraceLog[l]
 Is(e) == l <= Len(TraceLog) /\ TraceLog[l].e = e
 Adv == l' = l + 1
 
 TInit == /\ l = 2 /\ TraceLog[1].e = "Reset"
-         /\ Init /\ plan = PlanOf(TraceLog[1])
+         /\ plan = PlanOf(TraceLog[1]) /\ Fresh
 
 \* next execution: only after the previous one has ended
 TReset ==
